@@ -12,6 +12,8 @@ for d in sorted(glob.glob(os.path.join(ROOT, "seeded", "*", ""))):
     files = sorted({l[6:] for l in open(d + "patch.diff").read().splitlines() if l.startswith("+++ b/")})
     f1 = "caught" if own and own[0]["detected"] else "MISSED"
     f2 = "caught" if own and own[-1]["detected"] else "missed by own check"
+    if m.get("neutralised_by") and not (own and own[-1]["detected"]):
+        f2 = "no longer a breaking change (fix " + m["neutralised_by"]["commit"] + ")"
     if other:
         f2 += " (also " + ", ".join(sorted({r["check"] for r in other})) + ")"
     keys = "; ".join("`" + str(x) + "`" for x in (own[-1]["violation_keys"][:2] if own else []))
